@@ -96,11 +96,11 @@ func (e *Engine) newVC(name, prop string) (*FuncVC, error) {
 	if i := strings.Index(name, "+"); i >= 0 {
 		fname, stage = name[:i], name[i+1:]
 	}
+	ct := e.spec.Contracts[name]
 	fn := e.funcs[fname]
-	if fn == nil {
+	if fn == nil && !(ct != nil && ct.IsLemma) {
 		return nil, fmt.Errorf("contract for %s: no such function in the package", name)
 	}
-	ct := e.spec.Contracts[name]
 	vc := &FuncVC{eng: e, w: newWorld(e.pkg.Types), fn: fn, name: name, contract: ct, prop: prop,
 		heapInits: map[string]string{}, heapSorts: map[string]string{}, glue: map[string][]glueCand{}, glueInit: map[string]bool{}, candDropped: map[string]bool{},
 		loopInfos: map[*ssa.Function]*loopInfo{}, assumed: map[string]bool{}, trusted: map[string]bool{}, lemmaClauses: map[string][]string{}, maxPaths: 20000, compose: stage}
@@ -123,6 +123,10 @@ func (vc *FuncVC) symbolicRun() {
 	vc.w = newWorld(vc.eng.pkg.Types)
 	fn := vc.fn
 	ct := vc.contract
+	if ct != nil && ct.IsLemma {
+		vc.lemmaRun()
+		return
+	}
 	st := &State{vc: vc, heap: map[string]string{}, ghost: map[string]V{}, closures: map[string]*Closure{}, shadow: map[string]any{}, freshRefs: map[string]bool{}}
 	fr := &Frame{fn: fn, env: map[ssa.Value]any{}, cuts: map[*ssa.BasicBlock]*loopCut{}, block: fn.Blocks[0]}
 	st.frames = []*Frame{fr}
@@ -528,4 +532,50 @@ func (e *Engine) freeVarIndex(fn *ssa.Function, ct *Contract, w *World, name str
 		}
 	}
 	return -1
+}
+
+// lemmaRun: a lemma over contracts is a closed implication over its own typed variables.
+func (vc *FuncVC) lemmaRun() {
+	ct := vc.contract
+	st := &State{vc: vc, heap: map[string]string{}, ghost: map[string]V{}, closures: map[string]*Closure{}, shadow: map[string]any{}, freshRefs: map[string]bool{}}
+	st.heap0, st.ghost0 = map[string]string{}, map[string]V{}
+	vc.entryVars = map[string]any{}
+	defer func() {
+		if r := recover(); r != nil {
+			if se, ok := r.(specError); ok {
+				vc.unsupportedf("contract error in %s: %s", vc.name, se.msg)
+				return
+			}
+			panic(r)
+		}
+	}()
+	for i, p := range ct.Params {
+		so, gt := vc.ghostSort(ct.ParamTypes[i])
+		v := V{st.fresh("l_"+p, so), so, gt}
+		if gt != nil {
+			st.assume(intRange(gt, v.T))
+		}
+		vc.entryVars[p] = v
+	}
+	sc := vc.newScope(st, vc.baseVars(st))
+	for _, c := range ct.Requires {
+		if g, ok := vc.safeBool(sc, c.E, "requires"); ok {
+			st.assume(g)
+		}
+	}
+	vc.addCover(st, "cover:entry")
+	vc.returns = 1
+	for _, c := range ct.Ensures {
+		if !vc.inProp(c.Tags) {
+			continue
+		}
+		g, _ := vc.safeBool(sc, c.E, "ensures")
+		tag := ""
+		if len(c.Tags) > 0 {
+			tag = "[" + strings.Join(c.Tags, ",") + "]"
+		}
+		save := len(st.pc)
+		vc.addOblig(st, "lemma", fmt.Sprintf("ensures#%d%s", c.Ord, tag), c.Tags, g)
+		st.pc = st.pc[:save]
+	}
 }
